@@ -52,6 +52,8 @@ class C07(Prop):
                 P = [[x if x <= rng.randint(1, n) else None for x in row] for row in P]
             ps = i % 2 == 0
             sp = [1] * n if ps else [rng.randint(1, 3) for _ in range(n)]
+            if i % 6 == 5 and n >= 3 and not inc:     # unanimous profile, one agent eating much faster or slower than the others
+                P = [list(P[0]) for _ in range(n)]; sp = [1] * n; sp[rng.randrange(n)] = rng.choice([2, 3, 4]); ps = False
             c = dict(entry=("ProbabilisticSerial.scf" if ps else "SimultaneousEating.scf"), family=("lottery_incomplete" if inc else "lottery"),
                      P=P, speeds=sp, zi=bool(i % 3 == 0), seed=i, dtype=("float" if inc else rng.choice(["int64", "float"])))
             if not inc and i % 4 == 1:      # history: the same rule object was used on the same profile object with other speeds first
